@@ -386,8 +386,7 @@ impl<'a> Reader for ProtobufReader<'a> {
     #[inline]
     fn read_bit_string<C: bitstring::Constraint>(&mut self) -> Result<(Vec<u8>, u64), Self::Error> {
         let mut reader = self.next_range_format_reader(Format::LengthDelimited); // TODO Format::VarInt ??
-        let bytes = reader.read_bytes()?;
-        let bits = BitVec::from_vec_with_trailing_bit_len(bytes);
+        let bits = reader.read_bit_vec()?;
         Ok(bits.split())
     }
 
